@@ -234,6 +234,26 @@ def agrees(result, exp):
 def replay_macros(exe, failures):
     kinds = probe_errors(exe)
     tried, batch, seen = [], [], set()
+    # "on maps filter and map range over the keys in one fixed order": a counterexample on a map
+    # receiver is confirmed by running the macro several times over a map that is built afresh at
+    # every execution - two executions that disagree show that the order is the hash map's
+    for m in sorted({(f.get("scenario") or {}).get("macro") for f in failures if (f.get("scenario") or {}).get("receiver") == "Map"} & {"map", "filter"}):
+        body = "k" if m == "map" else "true"
+        src = "{'k0': x, 'k1': 1, 'k2': 2, 'k3': 3, 'k4': 4, 'k5': 5}." + m + "(k, " + body + ")"
+        results, why = [], ""
+        for _ in range(12):          # one process each: the hash seed is drawn per process / per map
+            out, why = run(exe, "eval", [{"programs": [["main", src]], "run": ["main"], "params": {"x": 0}}])
+            if out is None:
+                break
+            results.append(json.dumps(out[0].get("results", []), sort_keys=True))
+        if not results:
+            tried.append({"label": "key order", "skipped": why})
+            continue
+        rec = {"label": "key order of " + m + " over a map", "source": src, "native": results[:3], "distinct_results_in_12_runs": len(set(results))}
+        tried.append(rec)
+        if len(set(results)) > 1:
+            rec["reproduced"] = True
+            return {"status": "reproduced", "summary": f"`{src}` evaluated 12 times with the same binding gave {len(set(results))} different results: the keys are visited in the hash map's order, not in one fixed order", "attempts": tried}
     for f in failures:
         sc = f.get("scenario")
         if not sc or sc.get("unavailable") or sc.get("kind") != "macro":
